@@ -248,18 +248,27 @@ where
 
         let mls_group_id = group.mls_group_id.clone();
 
-        // Save the pending group
-        self.storage()
-            .save_group(group)
-            .map_err(|e| Error::Group(e.to_string()))?;
+        // The MLS group id inside a welcome is chosen by whoever built it. Merely receiving an
+        // invitation must never rewrite or disable a group the user is already an active member
+        // of, so the existing record (and its relays) is left untouched in that case.
+        let already_active = self
+            .get_group(&mls_group_id)?
+            .is_some_and(|existing| existing.state == group_types::GroupState::Active);
 
-        // Save the group relays
-        self.storage()
-            .replace_group_relays(
-                &mls_group_id,
-                welcome_preview.nostr_group_data.relays.clone(),
-            )
-            .map_err(|e| Error::Group(e.to_string()))?;
+        if !already_active {
+            // Save the pending group
+            self.storage()
+                .save_group(group)
+                .map_err(|e| Error::Group(e.to_string()))?;
+
+            // Save the group relays
+            self.storage()
+                .replace_group_relays(
+                    &mls_group_id,
+                    welcome_preview.nostr_group_data.relays.clone(),
+                )
+                .map_err(|e| Error::Group(e.to_string()))?;
+        }
 
         let processed_welcome = welcome_types::ProcessedWelcome {
             wrapper_event_id: *wrapper_event_id,
